@@ -344,7 +344,12 @@ func rewritePropertyLookupOperands(kindMapper *contextAwareKindMapper, expressio
 			case pgsql.OperatorIn:
 				expression.LOperand = rewritePropertyLookupOperator(leftPropertyLookup, rOperandTypeHint.ArrayBaseType())
 
-			case pgsql.OperatorCypherStartsWith, pgsql.OperatorCypherEndsWith, pgsql.OperatorCypherContains, pgsql.OperatorRegexMatch:
+			case pgsql.OperatorRegexMatch:
+				// The right operand is a regular expression: it is passed through verbatim. LIKE escaping does not
+				// apply to the ~ operator and doubling a backslash would change the expression being matched
+				expression.LOperand = rewritePropertyLookupOperator(leftPropertyLookup, pgsql.Text)
+
+			case pgsql.OperatorCypherStartsWith, pgsql.OperatorCypherEndsWith, pgsql.OperatorCypherContains:
 				expression.LOperand = rewritePropertyLookupOperator(leftPropertyLookup, pgsql.Text)
 
 				// If the right operand is a literal, it may contain characters that have special meaning in PgSQL
